@@ -580,6 +580,6 @@ pub fn run(ctx: &Ctx) {
     ctx.assume("complete endpoint state = Debug rendering of the connection state + send timer (verif_fingerprint hook); twin runs share clock and randomness");
     ctx.assume("0.6 without token has no agreed token: not in scope of the statement; 0.7 connectionless packets with a wrong token are not asserted");
     let max_ops = ctx.sz(80, 300) as usize;
-    ctx.prop("foreign/v6token", ctx.n(6000, 150_000), || case_strategy(max_ops), |c: &Case| run_case::<P6>(c));
-    ctx.prop("foreign/v7", ctx.n(6000, 150_000), || case_strategy(max_ops), |c: &Case| run_case::<P7>(c));
+    ctx.prop("foreign/v6token", ctx.n(6000, 800_000), || case_strategy(max_ops), |c: &Case| run_case::<P6>(c));
+    ctx.prop("foreign/v7", ctx.n(6000, 800_000), || case_strategy(max_ops), |c: &Case| run_case::<P7>(c));
 }
